@@ -121,7 +121,9 @@ func RunDaemon() {
 				err := mon.Run(ctx)
 				ui.Info("Sensor Monitor for sensor %s stopped.", s.GetId())
 				if err != nil {
-					panic(err)
+					// returning the error makes the run group interrupt all other actors,
+					// which cancels the context so that every fan controller restores its fan
+					ui.Error("Sensor Monitor for sensor %s failed: %v", s.GetId(), err)
 				}
 				return err
 			}, func(err error) {
@@ -140,8 +142,9 @@ func RunDaemon() {
 				err := fanController.Run(ctx)
 				ui.Info("Fan controller for fan %s stopped.", fan.GetId())
 				if err != nil {
-					ui.NotifyError(fmt.Sprintf("Fan Controller: %s", fan.GetId()), err.Error())
-					panic(err)
+					// returning the error makes the run group interrupt all other actors,
+					// which cancels the context so that every other fan controller restores its fan
+					ui.ErrorAndNotify(fmt.Sprintf("Fan Controller: %s", fan.GetId()), "Fan controller for fan %s failed: %v", fan.GetId(), err)
 				}
 				return err
 			}, func(err error) {
